@@ -400,6 +400,7 @@ func c07(c *core.Ctx, r *core.Report) {
 	})
 
 	rule(r, "C07.R4", "`failed` is stored true only by Fail/FailNow and false only by Reset; Reset clears failed, teardownFailed, tearingDown and the cleanup stack on every path; the outcome is read after the body and before the iteration's cleanups run", func() {
+		fullReset(c, r)
 		n := 0
 		for _, fn := range c.AllFuncs {
 			an.Instrs(fn, func(in ssa.Instruction) {
@@ -644,4 +645,74 @@ func literalHosts(lit *ssa.Function) []literalHost {
 		return nil
 	}
 	return out
+}
+
+// fullReset (part of C07.R4): a worker's handle is reused for every iteration it runs, so whatever a method of T
+// writes into the handle while an iteration runs — a flag, a counter, a list — is written by Reset as well, on every
+// path; otherwise the state of one iteration leaks into the next one on that worker. Fields set only when the handle
+// is built (options, the constructor) are configuration, not iteration state.
+func fullReset(c *core.Ctx, r *core.Report) {
+	tpkg := "pkg/f1/testing"
+	reset := c.MustFn(tpkg, "T.Reset")
+	st, _ := c.Named(tpkg, "T").Underlying().(*types.Struct)
+	if st == nil {
+		return
+	}
+	fieldOf := func(in ssa.Instruction) *types.Var {
+		switch x := in.(type) {
+		case *ssa.Store:
+			if f, owner := an.TerminalField(x.Addr); f != nil && an.IsNamed(owner, testingPkg, "T") {
+				return f
+			}
+		case ssa.CallInstruction:
+			t := an.Callee(x)
+			if t != nil && t.Pkg != nil && t.Pkg.Pkg.Path() == "sync/atomic" && t.Signature.Recv() != nil && len(x.Common().Args) > 0 {
+				switch t.Name() {
+				case "Store", "Swap", "Add", "CompareAndSwap":
+					if f, owner := an.TerminalField(x.Common().Args[0]); f != nil && an.IsNamed(owner, testingPkg, "T") {
+						return f
+					}
+				}
+			}
+		}
+		return nil
+	}
+	written := map[*types.Var]ssa.Instruction{}
+	for _, fn := range c.AllFuncs {
+		if core.RelPkg(fn) != tpkg {
+			continue
+		}
+		top := an.Outermost(fn)
+		// methods of T (and the literals inside them); not Reset itself, not option closures, not the constructor
+		if top.Signature.Recv() == nil || !an.IsNamed(top.Signature.Recv().Type(), testingPkg, "T") || top == reset {
+			continue
+		}
+		an.Instrs(fn, func(in ssa.Instruction) {
+			if f := fieldOf(in); f != nil {
+				for i := 0; i < st.NumFields(); i++ {
+					if an.SameField(st.Field(i), f) {
+						if _, seen := written[st.Field(i)]; !seen {
+							written[st.Field(i)] = in
+						}
+					}
+				}
+			}
+		})
+	}
+	n := 0
+	for i := 0; i < st.NumFields(); i++ {
+		f := st.Field(i)
+		at, isState := written[f]
+		if !isState {
+			continue
+		}
+		n++
+		pred := func(in ssa.Instruction) bool {
+			g := fieldOf(in)
+			return g != nil && an.SameField(g, f)
+		}
+		tot, ok := an.Total(an.PathCount(reset, an.InstrWeight(pred, flatDepth)), false)
+		r.Check(ok && tot.Lo >= 1, "T.Reset#resets("+f.Name()+")", an.Pos(c, at), "iteration state "+f.Name()+" is written by Reset on every path", "a method of T writes "+f.Name()+" while an iteration runs, but Reset has a path that does not reset it: on a reused handle the state of one iteration leaks into the next one on that worker")
+	}
+	r.Floor("iteration-state fields of testing.T", n, 3)
 }
